@@ -100,18 +100,25 @@ def execute(task, package_dir):
         for i in range(n):
             a, b = ref_without[i], plain.log[i]
             if a[1:] != b[1:]:
+                # two different events with exactly the same candidate time: which one the heap returns depends on the
+                # other entries it holds (recorded finding C19-tie); anything else is a plain violation
+                tie = a[2] is not None and a[2] == b[2] and a[1] != b[1]
                 summary["violations"].append({"property": ID, "oracle": "dumping_changes_the_run", "step": i,
                                               "detail": {"with_dumping": crashsim.encode_log([a])[0],
-                                                         "without": crashsim.encode_log([b])[0]}})
+                                                         "without": crashsim.encode_log([b])[0],
+                                                         "exact_tie": bool(tie)}})
+                tie_only = bool(tie)
                 break
         else:
             if reference.status == "ok" and plain.status == "ok" and len(ref_without) != len(plain.log):
                 summary["violations"].append({"property": ID, "oracle": "dumping_changes_the_run", "step": n,
                                               "detail": {"lengths": [len(ref_without), len(plain.log)]}})
         bump(probes, "dump_vs_nodump_events_compared", n)
-        if not dumps or summary["violations"]:
+        if not dumps or (summary["violations"] and not locals().get("tie_only")):
             summary["nontrivial"] = False
             return summary
+        tie_violations = list(summary["violations"])
+        summary["violations"] = []
         # (b) resume chosen dumps in a fresh interpreter
         order = list(range(len(dumps)))
         rng = random.Random(task.get("rng_seed", 0) ^ 0x5EED)
@@ -194,6 +201,7 @@ def execute(task, package_dir):
                                                   "step": start, "detail": dict(diff, cut=cut, size=size)})
                 bump(probes, "torn_dump_loaded")
         summary["nontrivial"] = compared >= 20 and not summary["violations"]
+        summary["violations"] = tie_violations + summary["violations"]
         summary["sample"] = {"scenario": {"base": scn["base"], "seed": scn["seed"], "n_roots": scn.get("n_roots"),
                                           "end_time": scn["end_time"]},
                              "dumps": [s for s, _ in dumps], "resumed_dump_indices": chosen,
